@@ -1,13 +1,22 @@
 (** C15 -- The GDSII real-number codec is exact over the format's range.
     Property theorems only; proofs are in Gds/GdsReal_proofs.v.
-    Doubles and GDSII reals are 64-bit words (Z); see Base/F64.v, Gds/GdsReal.v. *)
+    Doubles and GDSII reals are 64-bit words (Z); see Base/F64.v, Gds/GdsReal.v.
+
+    RANGE. [in_gds_range x] (Gds/GdsReal.v) is the whole range of normalised GDSII reals:
+    x is a finite non-zero double with 16^-65 <= |x| < 16^63, i.e. 2^-260 <= |x| < 2^252
+    (exponent byte 0..127, mantissa in [1/16, 1)). This includes the lowest hex decade
+    [16^-65, 16^-64) = [2^-260, 2^-256), whose exponent byte is 0x00 and whose true base-16
+    exponent is E = -64. (Until 2026-10-02 the predicate had the lower bound 2^-256 and the
+    theorems (1)-(3) were silent on that decade; see DESIGN.md section 9.) *)
 From Coq Require Import ZArith Bool Lia.
 From L21 Require Import Base.F64 Gds.GdsReal Gds.GdsReal_proofs.
 Local Open Scope Z_scope.
 
-(** (1) Encoding does not depend on the libm estimate [est] at all, and equals the
-    reference encoding written from the format: exponent byte 64+E with
-    16^(E-1) <= |x| < 16^E, mantissa the exact integer |x| * 16^(14-E). *)
+(** (1) Encoding does not depend on the libm estimate [est] at all (any integer: the clamp
+    to -64..63 and the two correction loops find E from every start; on the lowest decade
+    E = -64 and an estimate of -65 or less is clamped to it), and equals the reference
+    encoding written from the format: exponent byte 64+E with 16^(E-1) <= |x| < 16^E,
+    mantissa the exact integer |x| * 16^(14-E). *)
 Theorem C15_encode_is_reference :
   forall est x, word64 x -> in_gds_range x ->
     gds_encode_with est x = gds_spec_encode x.
@@ -21,6 +30,32 @@ Theorem C15_encode_exact :
     word64 w /\ gds_normalised w /\ gds_sign w = s /\
     gds_e2 w <= e /\ gds_mant w = m * 2 ^ (e - gds_e2 w).
 Proof. exact encode_exact. Qed.
+
+(** (2') The exponent byte is 64 + E, E the true base-16 exponent, and 0 <= 64 + E <= 127;
+    it is 0x00 exactly for |x| < 2^-256 = 16^-64 (the lowest hex decade). *)
+Theorem C15_encode_exp_byte :
+  forall est x s m e, word64 x -> in_gds_range x -> f64_decomp x = Some (s, m, e) ->
+    gds_exp7 (gds_encode_with est x) = 64 + true_exp16 m e /\
+    0 <= 64 + true_exp16 m e <= 127 /\
+    (gds_exp7 (gds_encode_with est x) = 0 <-> dy_lt_pow2 m e (-256) = true).
+Proof. exact encode_exp_byte. Qed.
+
+(** The boolean [in_gds_rangeb] used by the checkers decides [in_gds_range]; the range used
+    before the widening is contained in it; and every double m * 2^e of the lowest decade
+    (2^52 <= m < 2^53, -312 <= e <= -309) is in range, was not in the old range, and has E = -64. *)
+Theorem C15_rangeb_spec :
+  forall x, in_gds_rangeb x = true <-> in_gds_range x.
+Proof. exact in_gds_rangeb_spec. Qed.
+
+Theorem C15_range_old_incl :
+  forall x, in_gds_range_old x -> in_gds_range x.
+Proof. exact in_gds_range_old_incl. Qed.
+
+Theorem C15_lowest_decade_in_range :
+  forall s m e, two52 <= m < two53 -> -312 <= e <= -309 ->
+    in_gds_range (f64_of_norm s m e) /\ ~ in_gds_range_old (f64_of_norm s m e) /\
+    true_exp16 m e = -64.
+Proof. exact lowest_decade_in_range. Qed.
 
 (** (3) encode then decode is the identity on every in-range double (bit identity),
     and maps both zeros to a zero. *)
@@ -94,18 +129,40 @@ Theorem C15_orig_refuted :
     gds_decode (gds_encode_orig_with est x) <> x.
 Proof. exact orig_refuted. Qed.
 
-(** Non-vacuity: concrete in-range doubles and normalised reals meeting the hypotheses. *)
+(** Non-vacuity: concrete in-range doubles and normalised reals meeting the hypotheses,
+    among them values of the lowest hex decade [16^-65, 16^-64): 1e-78, -6e-79 and the
+    lower end 2^-260 = 16^-65 itself; 2^-261 (just below) and 2^252 are out of range. *)
 Example C15_nonvacuous :
   in_gds_rangeb 4611686018427387904 = true (* 2.0 *) /\
+  in_gds_rangeb 0x2FBDA48CE468E7C7 = true (* 1e-78 *) /\
+  gds_encode 0x2FBDA48CE468E7C7 = 0x001DA48CE468E7C7 /\
+  gds_encode_with (-65) 0x2FBDA48CE468E7C7 = 0x001DA48CE468E7C7 (* estimate E-1, clamped *) /\
+  gds_encode_with (-63) 0x2FBDA48CE468E7C7 = 0x001DA48CE468E7C7 (* estimate E+1, first loop *) /\
+  gds_spec_encode 0x2FBDA48CE468E7C7 = 0x001DA48CE468E7C7 /\
+  gds_decode 0x001DA48CE468E7C7 = 0x2FBDA48CE468E7C7 /\
+  gds_exp7 0x001DA48CE468E7C7 = 0 /\ two52 <= gds_mant 0x001DA48CE468E7C7 /\
+  in_gds_rangeb 0xAFB1C92155D88B11 = true (* -6e-79 *) /\
+  gds_decode (gds_encode 0xAFB1C92155D88B11) = 0xAFB1C92155D88B11 /\
+  gds_exp7 (gds_encode 0xAFB1C92155D88B11) = 0 /\
+  in_gds_rangeb 0x2FB0000000000000 = true (* 2^-260 = 16^-65, the smallest normalised real *) /\
+  gds_encode 0x2FB0000000000000 = 0x0010000000000000 /\
+  gds_decode 0x0010000000000000 = 0x2FB0000000000000 /\
+  in_gds_rangeb 0x2FAFFFFFFFFFFFFF = false (* the double just below 2^-260 *) /\
+  in_gds_rangeb 0x4FB0000000000000 = false (* 2^252 = 16^63 *) /\
+  in_gds_rangeb 0x4FAFFFFFFFFFFFFF = true (* the double just below 2^252 *) /\
   in_gds_rangeb 13826050856027422720 = true (* -0.75-ish *) /\
   (* literal corrected: 2.0 = 0.125 * 16^1 encodes as 0x4120000000000000 = 4692750811720056832
      (the earlier 4765553605630853120 was a mis-converted constant; checked by vm_compute) *)
   gds_encode 4611686018427387904 = 4692750811720056832 (* 0x4120000000000000 *) /\
   gds_decode 4692750811720056832 = 4611686018427387904.
-Proof. vm_compute. repeat split; reflexivity. Qed.
+Proof. vm_compute. repeat split; try reflexivity; discriminate. Qed.
 
 Print Assumptions C15_encode_is_reference.
 Print Assumptions C15_encode_exact.
+Print Assumptions C15_encode_exp_byte.
+Print Assumptions C15_rangeb_spec.
+Print Assumptions C15_range_old_incl.
+Print Assumptions C15_lowest_decade_in_range.
 Print Assumptions C15_decode_encode.
 Print Assumptions C15_decode_encode_zero.
 Print Assumptions C15_decode_correctly_rounded.
